@@ -12,7 +12,7 @@ observation against the PCM that was encoded."""
 import vlib
 from checks import readers_common as rc
 
-THEOREMS = ["C07_byte_reader", "C07_sample_reader", "C07_channel_reader", "C07_bytes_vs_samples",
+THEOREMS = ["C07_byte_reader", "C07_sample_reader", "C07_channel_reader", "C07_bytes_vs_samples", "C07_ser_twos_complement", "C07_channels_deinterleaved",
             "C07_nonvacuous", "C07_orig_redelivers_last_frame"]
 
 
